@@ -27,9 +27,39 @@ Check C12_stop_stops_refuted : forall thr n,
   count_stopped (d_log (i_drun w_cfg thr w_init (w_d13_prefix ++ w_idle n))) = 0%nat /\
   d_log (i_drun w_cfg thr w_init (w_d13_prefix ++ w_idle n)) = [EvAttempt; EvSuccess] /\
   d_wire (i_drun w_cfg thr w_init (w_d13_prefix ++ w_idle n)) = [16; 15; 0; 4; 77; 81; 84; 84; 5; 2; 0; 0; 0; 0; 2; 97; 97].
+Check C12_stop_stops :
+  forall E U D e_tag e_user e_disc e_reset e_opened e_closed e_data e_wc e_service e_nst,
+  engine_facts E U D e_tag e_user e_disc e_reset e_opened e_closed e_data e_wc e_service ->
+  forall thr e0 bc timeout, e_tag e0 = TDisconnected -> forall h now,
+  let s := reach E U D e_tag e_user e_disc e_reset e_opened e_closed e_data e_wc e_service e_nst thr e0 bc timeout h in
+  d_status s = Running -> c_des (d_c s) = CStopped -> (cur s <> CConnected \/ c_stop (d_c s) <> SDisc) ->
+  let s' := check E e_opened e_closed thr s now in
+  d_status s' = Running /\ cur s' = CStopped /\ c_des (d_c s') = CStopped /\
+  exists evs, d_log s' = d_log s ++ evs /\
+              count_stopped evs = (if cstate_eqb (cur s) CStopped then 0 else 1)%nat /\
+              existsb is_attempt_ev evs = false.
+Check C12_restartable :
+  forall E U D e_tag e_user e_disc e_reset e_opened e_closed e_data e_wc e_service e_nst thr e0 bc timeout h now,
+  let s := reach E U D e_tag e_user e_disc e_reset e_opened e_closed e_data e_wc e_service e_nst thr e0 bc timeout h in
+  d_status s = Running -> cur s = CStopped -> c_des (d_c s) = CConnected ->
+  let s' := check E e_opened e_closed thr s now in
+  cur s' = CConnecting /\ d_log s' = d_log s ++ [EvAttempt] /\ d_status s' <> Dead.
+Check C12_close_terminal :
+  forall E U D e_tag e_user e_disc e_reset e_opened e_closed e_data e_wc e_service e_nst,
+  engine_facts E U D e_tag e_user e_disc e_reset e_opened e_closed e_data e_wc e_service ->
+  forall thr e0 bc timeout, e_tag e0 = TDisconnected -> forall h now k,
+  let s := reach E U D e_tag e_user e_disc e_reset e_opened e_closed e_data e_wc e_service e_nst thr e0 bc timeout h in
+  d_status s = Running -> c_des (d_c s) = CShutdown -> (cur s <> CConnected \/ c_stop (d_c s) <> SDisc) ->
+  let s' := check E e_opened e_closed thr s now in
+  d_status s' = Exited /\
+  existsb is_attempt_ev (skipn (length (d_log s)) (d_log s')) = false /\
+  drun E U D e_tag e_user e_disc e_reset e_opened e_closed e_data e_wc e_service e_nst thr s' k = s'.
 Print Assumptions C12_transition_table.
 Print Assumptions C12_transition_table_complete.
 Print Assumptions C12_event_grammar.
 Print Assumptions C12_loop_alive.
 Print Assumptions C12_loop_alive_refuted_huge_timeout.
 Print Assumptions C12_stop_stops_refuted.
+Print Assumptions C12_stop_stops.
+Print Assumptions C12_restartable.
+Print Assumptions C12_close_terminal.
